@@ -1,6 +1,7 @@
 import Driver.Util
 import NutsModel.C13.Subject
 import NutsModel.C13.RequestNow
+import NutsModel.C13.ContextNow
 import NutsModel.Facts.C13
 open Lean Nuts.Drv Nuts.C13 Nuts
 
@@ -58,7 +59,8 @@ def observe (st : St) (result : String) : St × String := Id.run do
   let mut out := s!"{result} log={logCount w} keys={w.keys.length} list=ok"
   for s in sortStr st.subjects do
     out := out ++ s!" || {s}"
-    let rows := listDIDs w s
+    -- `FindBySubject`, with the comparison its query text has today (theorem `lookup_is_exact`: = `listDIDs`)
+    let rows := findBySubject Now.sameSubject w s
     if rows.isEmpty then
       out := out ++ " err:nosubject"
       continue
@@ -203,7 +205,10 @@ def step (st : St) (j : Json) : St × List String :=
       let seen := (jStrs j "order").filterMap parseMethod
       -- Go visits every key of the map: the methods not reached before the loop ended come after the observed ones
       let order := seen ++ st.cfg.methods.filter (fun m => !seen.contains m)
-      let (w, r) := stepOp st.cfg st.w op order (parseFault j)
+      -- `okctx`: the request context ends after `k` Commit calls (did:nuts has published); the model takes the context
+      -- through the commit loop with did:web's Commit as the source has it (`Now.webFails`)
+      let (w, r) := if jStr j "fault" == "okctx" then stepOpCtx Now.webFails (some (jNat j "k")) st.cfg st.w op order .none
+                    else stepOp st.cfg st.w op order (parseFault j)
       let st := { st with w := w, subjects := insertSet st.subjects (jStr j "subj"),
                           svcs := insertSet (insertSet st.svcs (jStr j "a")) (jStr j "b") }
       let (st, o) := observe st r
